@@ -19,12 +19,14 @@ Definition leaky (n : string) : bool := String.eqb n "nth_root".
 Section Run.
   Variable mode : Type.
   Variable leak : string -> mode -> mode.       (* whatever a leaky primitive leaves behind *)
+  Variable stale : mode.                        (* what a function-local STATIC save holds: the mode of the first call ever *)
 
   Record st := { cur : mode; saved : option mode }.
 
   Definition exec_ev (s : st) (e : ev) : st :=
     match e with
     | EvSave => {| cur := cur s; saved := Some (cur s) |}
+    | EvSaveStale => {| cur := cur s; saved := Some stale |}
     | EvRestore => {| cur := match saved s with Some m => m | None => cur s end; saved := saved s |}
     | EvPrim n => if leaky n then {| cur := leak n (cur s); saved := saved s |} else s
     end.
@@ -37,25 +39,27 @@ Definition sym_ev (s : bool * sv) (e : ev) : bool * sv :=
   let '(dirty, sv0) := s in
   match e with
   | EvSave => (dirty, if dirty then SvDirty else SvClean)
+  | EvSaveStale => (dirty, SvDirty)
   | EvRestore => (match sv0 with SvClean => false | SvDirty => true | SvNone => dirty end, sv0)
   | EvPrim n => (dirty || leaky n, sv0)
   end.
 Definition path_ok (p : list ev) : bool := negb (fst (fold_left sym_ev p (false, SvNone))).
 
-Lemma sym_sound (mode : Type) (leak : string -> mode -> mode) (m : mode) :
+Lemma sym_sound (mode : Type) (leak : string -> mode -> mode) (stale m : mode) :
   forall p s d v,
     (d = false -> cur mode s = m) ->
     (v = SvClean -> saved mode s = Some m) ->
     (v = SvNone -> saved mode s = None) ->
     fst (fold_left sym_ev p (d, v)) = false ->
-    cur mode (fold_left (exec_ev mode leak) p s) = m.
+    cur mode (fold_left (exec_ev mode leak stale) p s) = m.
 Proof.
   induction p as [|e p IH]; intros s d v Hd Hv Hn H; cbn [fold_left] in *.
   - apply Hd. exact H.
-  - destruct e as [| |n]; cbn [sym_ev exec_ev] in *.
+  - destruct e as [| | |n]; cbn [sym_ev exec_ev] in *.
     + apply (IH _ d (if d then SvDirty else SvClean)); cbn [cur saved]; auto.
       * destruct d; intros E; [discriminate|]. rewrite Hd; reflexivity.
       * destruct d; discriminate.
+    + apply (IH _ d SvDirty); cbn [cur saved]; auto; discriminate.
     + apply (IH _ (match v with SvClean => false | SvDirty => true | SvNone => d end) v); cbn [cur saved]; auto.
       destruct v.
       * intros E. rewrite (Hn eq_refl). apply Hd. exact E.
@@ -67,11 +71,11 @@ Proof.
       * rewrite orb_false_r in H. apply (IH _ d v); auto.
 Qed.
 
-Theorem path_ok_sound (mode : Type) (leak : string -> mode -> mode) (p : list ev) :
-  path_ok p = true -> forall m, run_path mode leak m p = m.
+Theorem path_ok_sound (mode : Type) (leak : string -> mode -> mode) (stale : mode) (p : list ev) :
+  path_ok p = true -> forall m, run_path mode leak stale m p = m.
 Proof.
   unfold path_ok, run_path. intros H m. apply negb_true_iff in H.
-  apply (sym_sound mode leak m p _ false SvNone); cbn [cur saved]; auto; discriminate.
+  apply (sym_sound mode leak stale m p _ false SvNone); cbn [cur saved]; auto; discriminate.
 Qed.
 
 (* every path of every operation, as the header stands *)
@@ -83,9 +87,9 @@ Proof. vm_compute. reflexivity. Qed.
 
 Theorem interval_ops_restore_mode :
   forall op p, In (op, p) all_paths ->
-  forall (mode : Type) (leak : string -> mode -> mode) (m : mode), run_path mode leak m p = m.
+  forall (mode : Type) (leak : string -> mode -> mode) (stale m : mode), run_path mode leak stale m p = m.
 Proof.
-  intros op p Hin mode leak m. apply path_ok_sound.
+  intros op p Hin mode leak stale m. apply path_ok_sound.
   pose proof interval_paths_ok as H. rewrite forallb_forall in H. exact (H (op, p) Hin).
 Qed.
 
@@ -109,12 +113,18 @@ Qed.
 Definition unbracketed_leaks_stmt : Prop :=
   path_ok [EvPrim "nth_root"] = false /\ path_ok [EvSave; EvPrim "nth_root"] = false /\
   path_ok [EvPrim "nth_root"; EvSave; EvRestore] = false /\
-  forall (mode : Type) (m m' : mode), m' <> m ->
-    run_path mode (fun _ _ => m') m [EvSave; EvPrim "nth_root"] <> m.
+  path_ok [EvSaveStale; EvPrim "nth_root"; EvRestore] = false /\
+  (forall (mode : Type) (m m' : mode), m' <> m ->
+    run_path mode (fun _ _ => m') m m [EvSave; EvPrim "nth_root"] <> m) /\
+  (* a mode saved once in a function-local static is put back into a caller that came in with another mode *)
+  (forall (mode : Type) (m first : mode), first <> m ->
+    run_path mode (fun _ x => x) first m [EvSaveStale; EvPrim "nth_root"; EvRestore] <> m).
 Theorem unbracketed_leaks : unbracketed_leaks_stmt.
 Proof.
   unfold unbracketed_leaks_stmt.
-  repeat split; try reflexivity. intros mode m m' H. cbn. exact H.
+  repeat split; try reflexivity.
+  - intros mode m m' H. cbn. exact H.
+  - intros mode m first H. cbn. exact H.
 Qed.
 
 (* scope of the table: no file of libfive/src, libfive/include, libfive/stdlib other than interval.hpp names a Boost
